@@ -58,7 +58,10 @@ def gen_h(rng):
     edges = sorted(edges)
     if len(edges) < 2:
         edges = [tuple(sorted(labels[:2])), tuple(sorted(labels[1:3]))]
-    h = hgx.Hypergraph(edges)
+    if rng.random() < 0.3:  # weighted input: the weights are not multiplicities, the guarantees are about the hyperedges
+        h = hgx.Hypergraph(edges, weighted=True, weights=[rng.choice([1, 2, 3, 5, 0.5]) for _ in edges])
+    else:
+        h = hgx.Hypergraph(edges)
     if rng.random() < 0.3:
         h.add_node(labels[-1])
     if rng.random() < 0.35:  # calls the library refuses, made before measuring (a refused call must leave no trace)
@@ -228,7 +231,10 @@ def directed_case(ctx, rng, idx):
         edges = sorted(set(edges))
     if len(edges) < 2:
         return
-    h = hgx.DirectedHypergraph(edges)
+    if rng.random() < 0.3:
+        h = hgx.DirectedHypergraph(edges, weighted=True, weights=[rng.choice([1, 2, 3, 5, 0.5]) for _ in edges])
+    else:
+        h = hgx.DirectedHypergraph(edges)
     if rng.random() < 0.35:  # calls the library refuses, made before measuring (a refused call must leave no trace)
         from ..mutate import refused_calls
 
